@@ -43,6 +43,7 @@ inductive Form where
   | add | sub | rem | adda | suba | rema
   | eq | lt | pcmp | ordmax | letbind | hypot | atan2
   | newf | getf | from_ | sqrt | cbrt | neg
+  | satadd | satsub | sum
 deriving DecidableEq, Repr, Inhabited
 
 def Form.ofString? : String → Option Form
@@ -52,6 +53,7 @@ def Form.ofString? : String → Option Form
   | "letbind" => some .letbind | "hypot" => some .hypot | "atan2" => some .atan2
   | "newf" => some .newf | "getf" => some .getf | "from" => some .from_
   | "sqrt" => some .sqrt | "cbrt" => some .cbrt | "neg" => some .neg
+  | "satadd" => some .satadd | "satsub" => some .satsub | "sum" => some .sum
   | _ => none
 
 /-- marker indices in `Gen.markerNames` order -/
@@ -63,6 +65,7 @@ def mDiv := 6
 def mNeg := 8
 def mRem := 9
 def mRemAssign := 10
+def mSaturating := 11
 
 structure TyEnv where
   kinds : List KindDecl
@@ -92,5 +95,9 @@ def accepts (e : TyEnv) (f : Form) (A B : QTy) (sameModule : Bool) : Bool :=
   | .sqrt => (outRoot 2 A).isSome && e.has A.kind mDiv
   | .cbrt => (outRoot 3 A).isSome && e.has A.kind mDiv
   | .neg => e.has A.kind mNeg
+  -- `num_traits::Saturating for Quantity` (`D::Kind: marker::Saturating`), operands of one type
+  | .satadd | .satsub => A = B && e.has A.kind mSaturating
+  -- `iter::Sum for Quantity` (`D::Kind: marker::Add`): accumulating quantities of one type
+  | .sum => A = B && e.has A.kind mAdd
 
 end Uom
